@@ -27,7 +27,7 @@ def has_h(body):
     return b'h' in b''.join(v[0] for v in body) or 'h:' in ','.join(R.canon_value(v) for v in body)
 
 
-def check_program(h, m, ctor, arr, hits, out, fops='', getdel=None):
+def check_program(h, m, ctor, arr, hits, out, fops='', getdel=None, reset=None):
     """m: the intended message (fields in the order the setters are called)."""
     if m.body and m.field(R.F_SIGNATURE) is None:
         m = m.copy()
@@ -37,6 +37,11 @@ def check_program(h, m, ctor, arr, hits, out, fops='', getdel=None):
         mb = m.copy()
         mb.flags = 0
         prog = '%s %s %s FOPS=%s' % (ctor, arr, R.canon_msg(mb), fops)
+    elif reset:
+        # the program first sets the field to reset[2] and then sets it again to the value m carries
+        mb = m.copy()
+        mb.fields = [(c, (v[0], reset[2]) if c == reset[1] else v) for c, v in mb.fields]
+        prog = '%s %s %s RESET=%s:%s' % (ctor, arr, R.canon_msg(mb), reset[0], dict(m.fields)[reset[1]][1].hex())
     elif getdel:
         # the program sets getdel[1] as well, reads all fields back, then removes that field again; m is the expected result
         mb = m.copy()
@@ -138,7 +143,11 @@ def task_batch(items):
     for it in items:
         ctor, arr, mt = it[:3]
         m = R.Msg(*mt)
-        check_program(h, m, ctor, arr, hits, out, it[3] if len(it) > 3 and isinstance(it[3], str) else '', it[3] if len(it) > 3 and not isinstance(it[3], str) else None)
+        x = it[3] if len(it) > 3 else ''
+        if isinstance(x, tuple) and x and x[0] == 'RESET':
+            check_program(h, m, ctor, arr, hits, out, '', None, x[1:])
+        else:
+            check_program(h, m, ctor, arr, hits, out, x if isinstance(x, str) else '', x if not isinstance(x, str) else None)
     byfp = {}
     for v in out:
         byfp.setdefault(v.fingerprint, []).append(v)
@@ -214,6 +223,31 @@ def programs(tier):
                     remaining = [(c, v) for c, v in full if c != dele]
                     for body in ([], [(b's', b'x')], [(b'u', 7), (b's', b'yz')]):
                         yield ('g', 'i', (mt, 0, 0x01020304, remaining, body), (delname[dele], dele, full))
+    # set twice: a field that is already there gets another value (shorter, equal length, longer, across an 8-byte block),
+    # for the field set last and for one in the middle, with and without a body
+    for mt in (R.MT_CALL, R.MT_SIGNAL, R.MT_ERROR):
+        full = {R.MT_CALL: [R.F_PATH, R.F_INTERFACE, R.F_MEMBER, R.F_DESTINATION], R.MT_SIGNAL: [R.F_PATH, R.F_INTERFACE, R.F_MEMBER],
+                R.MT_ERROR: [R.F_DESTINATION, R.F_ERROR_NAME, R.F_SENDER, R.F_REPLY_SERIAL]}[mt]
+        for tail in range(1, len(full) + 1):
+            sub = full[:tail]
+            if mt == R.MT_ERROR and R.F_REPLY_SERIAL not in sub:
+                sub = sub + [R.F_REPLY_SERIAL]
+            if mt == R.MT_CALL and R.F_MEMBER not in sub:
+                continue
+            if mt == R.MT_SIGNAL and len(sub) < 3:
+                continue
+            if mt == R.MT_ERROR and R.F_ERROR_NAME not in sub:
+                continue
+            for target in [c for c in sub if c in delname][-2:]:
+                old = vals[target][1]
+                short = {R.F_PATH: b'/a', R.F_INTERFACE: b'x.y', R.F_MEMBER: b'M', R.F_DESTINATION: b':1.5', R.F_ERROR_NAME: b'a.E', R.F_SENDER: b'a.b',
+                         R.F_CONTAINER_INSTANCE: b'/c'}[target]
+                for newv in (short, old[:-1] + b'Q', old + b'q', old + b'qq', old + b'q' * 7, old + b'q' * 9):
+                    if newv == old:
+                        continue
+                    fields = [(c, (vals[c][0], newv) if c == target else vals[c]) for c in sub]
+                    for body in ([], [(b's', b'x')]):
+                        yield ('g', 'i', (mt, 0, 0x01020304, fields, body), ('RESET', delname[target], target, old))
     # long values: strings crossing 8-byte residues in every field
     for n in range(1, 18):
         fields = [(R.F_PATH, (b'o', b'/' + b'p' * n)), (R.F_INTERFACE, (b's', b'i.' + b'f' * n)), (R.F_MEMBER, (b's', b'm' * n)),
@@ -280,6 +314,17 @@ def replay(case):
     fops = ''
     if ' FOPS=' in canon:
         canon, fops = canon.rsplit(' FOPS=', 1)
+    if ' RESET=' in canon:
+        canon, rs = canon.rsplit(' RESET=', 1)
+        fname, hx = rs.split(':')
+        code = {'path': R.F_PATH, 'iface': R.F_INTERFACE, 'member': R.F_MEMBER, 'errname': R.F_ERROR_NAME, 'dest': R.F_DESTINATION, 'sender': R.F_SENDER, 'cinst': R.F_CONTAINER_INSTANCE}[fname]
+        with Harness('vbox') as h:
+            first = msg_from_canon(canon)
+            oldv = dict(first.fields)[code][1]
+            m = first.copy()
+            m.fields = [(c, (v[0], bytes.fromhex(hx)) if c == code else v) for c, v in m.fields]
+            check_program(h, m, ctor, arr, hits, out, '', None, (fname, code, oldv))
+        return out
     if ' GETDEL=' in canon:
         canon, gd = canon.rsplit(' GETDEL=', 1)
         with Harness('vbox') as h:
